@@ -89,6 +89,26 @@ def removeLru (w : W κ ν) (site : RemoveSite) : W κ ν :=
     | none => w
     | some i => { w with chain := unlink i w.chain, index := unindex old.key w.index, freed := i :: w.freed }
 
+/-- `j` complete iterations of `remove_lru` (the loop body of `purge` and `resize`) -/
+def removeLruN (w : W κ ν) : Nat → W κ ν
+  | 0 => w
+  | j + 1 => removeLruN (removeLru w .done) j
+
+/-- `purge` (`while self.remove_lru().is_some() {}`) aborted in its `(j+1)`-th iteration at `site`
+    (`.done` = that iteration completed; the entry it returned is dropped by the loop) -/
+def purge (w : W κ ν) (j : Nat) (site : RemoveSite) : W κ ν := removeLru (removeLruN w j) site
+
+/-- `resize(n)`: `while map.len() > n { remove_lru(); }`, `map.shrink_to_fit()` (re-hashes every remaining key: user
+    code again), and only then `self.cap = n`. `fin = true`: ran to completion. Otherwise aborted in iteration `j+1` at
+    `site`, or — all iterations done — inside the re-hash: the capacity is still the old one. -/
+def resize (w : W κ ν) (n : Nat) (j : Nat) (site : RemoveSite) (fin : Bool) : W κ ν :=
+  if n = w.cap then w
+  else
+    let need := w.index.length - n
+    if fin then { removeLruN w need with cap := n }
+    else if j < need then removeLru (removeLruN w j) site
+    else removeLruN w need
+
 /-- `get_`: lookup, detach, attach -/
 def get (w : W κ ν) (k : κ) (site : RemoveSite) : W κ ν :=
   if site = .lookup then w else
